@@ -1,0 +1,61 @@
+//go:build verif
+
+package server
+
+import (
+	"net"
+
+	"github.com/coredhcp/coredhcp/handler"
+)
+
+// Verification hooks (build tag verif): listeners built by the real listen4 / listen6 from
+// a listen address, as Start builds them (real socket), with their I/O routed through a
+// VerifIO like the socket-less listeners of verif_hooks.go.
+
+// VerifListen4 runs the real listen4 on a.
+func VerifListen4(a *net.UDPAddr, handlers []handler.Handler4, io *VerifIO) (*VerifListener4, error) {
+	l, err := listen4(a)
+	if err != nil {
+		return nil, err
+	}
+	l.handlers = handlers
+	verifMu.Lock()
+	verifIO4[l] = io
+	verifMu.Unlock()
+	return &VerifListener4{l}, nil
+}
+
+// VerifListen6 runs the real listen6 on a.
+func VerifListen6(a *net.UDPAddr, handlers []handler.Handler6, io *VerifIO) (*VerifListener6, error) {
+	l, err := listen6(a)
+	if err != nil {
+		return nil, err
+	}
+	l.handlers = handlers
+	verifMu.Lock()
+	verifIO6[l] = io
+	verifMu.Unlock()
+	return &VerifListener6{l}, nil
+}
+
+// Bound is the interface the listener regards itself as bound to (zero value: unbound).
+func (v *VerifListener4) Bound() net.Interface { return v.l.Interface }
+
+// Bound is the interface the listener regards itself as bound to (zero value: unbound).
+func (v *VerifListener6) Bound() net.Interface { return v.l.Interface }
+
+// Close closes the socket of a listener built by VerifListen4 and forgets the listener.
+func (v *VerifListener4) Close() {
+	if v.l.PacketConn != nil {
+		v.l.PacketConn.Close()
+	}
+	v.Release()
+}
+
+// Close closes the socket of a listener built by VerifListen6 and forgets the listener.
+func (v *VerifListener6) Close() {
+	if v.l.PacketConn != nil {
+		v.l.PacketConn.Close()
+	}
+	v.Release()
+}
